@@ -254,6 +254,7 @@ def run(ctx):
 
     minimum(ctx, g)
     not_truncated(ctx, g)
+    compare_exhaustive(ctx, g)
     code_content(ctx, g)
 
 
@@ -314,6 +315,62 @@ def minimum(ctx, g):
                 dif_ok = True
     ctx.require(dif_ok, "T3-compare-same-position", cc.name, "get(i) - get(i)", "codes are compared entry by entry at equal positions, candidate minus best",
                 "compare_codes does not subtract the best code's entry from the candidate's entry at the same position")
+
+
+def compare_exhaustive(ctx, g):
+    """compare_codes declares a tie only when the candidate's code is exhausted: the comparison loop walks positions 0, 1, 2, .. without an
+    a-priori bound and is left only on a difference or when trav.get(i) is None (a computed length bound is a truncation: fixed points of
+    the operations make codes longer than any formula that counts half an edge per chamber and index)"""
+    ctx.clauses.append("compare_codes compares every position until the candidate's code ends (T3)")
+    cc = ctx.body("dsyms::compare_codes")
+    trav, best = ("param", 1, cc.debug.get(1, "")), ("param", 2, cc.debug.get(2, ""))
+    gets = [(bi, [norm(cc.origin(x), g) for x in t["args"]]) for bi, t in cc.calls(exact="dsyms::TraversalCode::<'a, T>::get")]
+    pos = [a[1] for bi, a in gets if a[0] == trav]
+    ctx.floor("trav.get(i) calls in compare_codes", len(pos), 1)
+    unbounded = False
+    for p_ in pos[:1]:
+        r = loop_range_of_payload(cc, p_, g)
+        if r is not None:
+            ok = r[0] == ("int", 0) and r[1] is None
+            unbounded = r[1] is None
+            ctx.ob("T3-compare-all-positions", cc.name, "positions", "ok" if ok else "violation",
+                   "positions compared are 0.. (unbounded; the loop ends when the code does)" if ok else
+                   "positions compared are %s..%s: %s" % (show(r[0], 1), show(r[1], 1)[:60] if r[1] is not None else "", "entry 0.. is skipped" if r[1] is None else
+                                                         "codes longer than the bound are compared on a prefix only, inequivalent seeds tie and the canonical form depends on the numbering"))
+        elif p_[0] == "local":
+            defs = [norm(d, g) for _, d in cc.all_defs_origins(p_[1])]
+            inc = [d for d in defs if unov_(d)[0] == "binop" and unov_(d)[1] == "Add" and ("int", 1) in unov_(d)[2:] and p_ in unov_(d)[2:]]
+            ok = ("int", 0) in defs and len(inc) == 1 and len(defs) == 2
+            ctx.ob("T3-compare-all-positions", cc.name, "positions", "ok" if ok else "violation",
+                   "positions compared are a counter from 0 in steps of 1" if ok else "the position counter is not (0, then +1): %s" % [show(d, 1)[:30] for d in defs])
+        else:
+            ctx.ob("T3-compare-all-positions", cc.name, "positions", "violation", "the compared position is neither a range payload nor a counter: " + show(p_, 1)[:60])
+    lps = natural_loops(cc)
+    ctx.floor("loops in compare_codes", len(lps), 1)
+    for h, blocks in lps:
+        bad = []
+        for (a, s_), atoms in loop_exit_atoms(cc, h, blocks, g):
+            ok = False
+            for at in atoms:
+                if at[0] in ("variant", "notvariant") and at[1][0] == "call" and at[1][1].endswith("TraversalCode::<'a, T>::get") and at[1][2][0] == trav and \
+                        (at == ("variant", at[1], 0) or at == ("notvariant", at[1], (1,))):
+                    ok = True                                   # the candidate's code is exhausted
+                if at[0] == "rel" and at[1] == "Ne" and at[3] == ("int", 0) and contains(at[2], lambda x: x[0] == "call" and x[1].endswith("::get") and x[2][0] == trav) \
+                        and contains(at[2], lambda x: x[0] == "call" and x[1].endswith("::get") and x[2][0] == best):
+                    ok = True                                   # a difference decides
+                if at[0] == "notvariant" and at[2] == (0, 1):
+                    ok = True                                   # the unreachable arm of a two-variant match
+                if unbounded and at[0] == "variant" and at[2] == 0 and at[1][0] == "call" and at[1][1].endswith("Iterator::next"):
+                    ok = True                                   # RangeFrom never ends; the edge exists in the CFG only
+            if not ok:
+                bad.append("bb%d->bb%d on %s" % (a, s_, "; ".join(show_atom(x)[:60] for x in atoms) or "unconditional"))
+        ctx.ob("T3-compare-all-positions", cc.name, "loop exits", "ok" if not bad else "violation",
+               "the comparison ends only on a difference or when the candidate's code is exhausted" if not bad else
+               "the comparison loop can be left for another reason (%s): a tie is declared on a prefix" % bad[0])
+
+
+def unov_(t):
+    return ("binop", t[1][1].replace("WithOverflow", ""), t[1][2], t[1][3]) if t[0] == "field" and str(t[2]) == "0" and t[1][0] == "binop" else t
 
 
 def not_truncated(ctx, g):
